@@ -139,6 +139,7 @@ type c06World struct {
 	node     *corev1.Node
 	maxRef   int
 	reserved cpuset.CPUSet
+	c19Extra []vu.Ev // C19: further outcomes of the same rebuild ("reprobe" events), emitted right after the restart event
 }
 
 func c06Topology(dims []int) *CPUTopology {
@@ -431,7 +432,14 @@ func c06RunScript(rec *vu.Recorder, script []c06Op) {
 		if script[i].Op == "panic" {
 			continue
 		}
+		if script[i].Op == "reprobe" {
+			continue // produced by the restart before it
+		}
 		rec.Emit(w.c06Exec(&script[i]))
+		for _, x := range w.c19Extra {
+			rec.Emit(x)
+		}
+		w.c19Extra = nil
 	}
 }
 
@@ -794,6 +802,10 @@ func c06RandomHistory(rec *vu.Recorder, st *c06Stats, rng *rand.Rand, length int
 		ev := w.c06Exec(o)
 		st.observe(ev)
 		rec.Emit(ev)
+		for _, x := range w.c19Extra {
+			rec.Emit(x)
+		}
+		w.c19Extra = nil
 		return ev
 	}
 	randNuma := func() []c06Amt {
@@ -806,7 +818,9 @@ func c06RandomHistory(rec *vu.Recorder, st *c06Stats, rng *rand.Rand, length int
 	for i := 0; i < length; i++ {
 		if c06Restarts && rng.Intn(10) == 0 {
 			// C19: the scheduler restarts; the history goes on against the rebuilt cache
-			emit(&c06Op{Op: "restart", Variant: rng.Intn(1 << 16)})
+			for k := 1 + rng.Intn(3); k > 0; k-- { // each restart is one chance for the rebuild's first-touch races
+				emit(&c06Op{Op: "restart", Variant: rng.Intn(1 << 16)})
+			}
 			for _, p := range sh.pods() { // what the fresh cache does not restore: allocations that hold nothing
 				if len(sh.cpus[p]) == 0 && len(sh.numa[p]) == 0 {
 					delete(sh.cpus, p)
